@@ -403,7 +403,32 @@ def rw_closure_underscore(body, cnt):
         return '|_e|'
     return re.sub(r'\|_\|', sub, body)
 
-GENERIC = [rw_update_closure, rw_sum, rw_for_loops, rw_opassign, rw_opassign_arm, rw_closure_underscore]
+def rw_find(body, cnt):
+    """R8: E.iter().find(|x| P)  ==>  search loop returning the first element satisfying P (definition of Iterator::find)"""
+    while True:
+        msk = mask(body)
+        m = re.search(r'([A-Za-z_][\w]*(?:\s*\.\s*[A-Za-z_]\w*)*)\s*\.\s*iter\(\)\s*\.\s*find\s*\(', msk)
+        if not m: return body
+        o = m.end() - 1
+        c = match_close(msk, o)
+        inner = body[o + 1:c]
+        cm = re.match(r'\s*\|\s*(\w+)\s*\|\s*(.*)$', inner, re.S)
+        if not cm: raise ExtractError('R8: unsupported find() closure: ' + inner[:60])
+        x, pred = cm.group(1), cm.group(2).strip()
+        e = re.sub(r'\s+', '', body[m.start(1):m.end(1)])
+        k = _fresh()
+        repl = ('{ let mut __found = none_of(&%s); let mut %s: usize = 0; while %s < %s.len() { let %s = &%s[%s]; %s = %s + 1; if %s { __found = Some(%s); break; } } __found }'
+                % (e, k, k, e, x, e, k, k, k, pred, x))
+        body = body[:m.start()] + repl + body[c + 1:]
+        cnt.hit('R8')
+
+def rw_paths(body, cnt):
+    """D3: the unit is one module; drop `cosmwasm_std::` path qualifiers"""
+    body, n = re.subn(r'\bcosmwasm_std::', '', body)
+    if n: cnt.hit('D3', n)
+    return body
+
+GENERIC = [rw_paths, rw_find, rw_update_closure, rw_sum, rw_for_loops, rw_opassign, rw_opassign_arm, rw_closure_underscore]
 
 # --------------------------------------------------------------------------------------
 
